@@ -280,6 +280,9 @@ def run(repo, rep):
     rep.run_borrowed(c04, {"C04-a": "C06-l"}, repo)
     # IB_END / AB_START are computed by the block configuration code: the IFM block depth per precision is decided there [shared with C15-i]
     rep.run_borrowed(c15, {"C15-i": "C06-m"}, repo)
+    rep.clause("C06-x", "the IFM partition behind IB_END is sized with the operation's upscaling: to_upscale is 1 for NONE, 2 for NEAREST and TRANSPOSE (interpreted for every member of the register enum)")
+    rep.clause("C06-y", "a quantisation record without a scale keeps its zero point in ACTIVATION_MIN / MAX and IFM2_SCALAR: quantise() interpreted with a recording stub")
+    rule_round12(repo, rep)
     rep.clause("C06-w", "the DMA source, destination and length registers are emitted in the 40-bit form (cmd1_with_address): on Ethos-U65 a DMA may move 2^32 bytes or more, the 32-bit form drops bits 32..39 of the length silently (reviewed table, frozen from the tree)")
     gd_ = repo.mod("register_command_stream_generator").func("generate_dma_op")
     forms = {}
@@ -1310,3 +1313,51 @@ def rule_quantise_float32(repo, rep):
     rep.check(not wrong, "C06-u", "ethosu/vela/numeric_util.py:quantise_float32", f"zero_point + round-half-away-from-zero(f / scale) on {pts} points (8 exact ties)",
               (f"quantise_float32({wrong[0][0]}, {wrong[0][1]}, {wrong[0][2]}) = {wrong[0][3]}, half-away-from-zero gives {wrong[0][4]}: NPU_SET_IFM2_SCALAR / "
                "NPU_SET_ACTIVATION_MIN / MAX encode a different scalar or clamp than the operation asked for") if wrong else "")
+
+
+def rule_round12(repo, rep):
+    """(x) to_upscale, which sizes the IFM partition behind IB_END, is 1 for resampling NONE and 2 for NEAREST and TRANSPOSE (interpreted for
+    every member of the register enum).
+    (y) quantise() maps a real value to value / scale + zero point; a quantisation without a scale still has its zero point (interpreted
+    with a recording stub for quantise_float32: the zero point handed on is the record's own on every path where a record exists)."""
+    from ..absint import AObj, EnumMember, Interp
+
+    aa = repo.mod("architecture_allocator")
+    regm = None
+    for n_, m in repo.modules.items():
+        if m.rel.endswith("ethos_u55_regs.py"):
+            regm = m
+    if regm is None:
+        raise AnalysisError("register description module not found")
+    cls = regm.cls("resampling_mode")
+    members = [st.targets[0].id for st in cls.body if isinstance(st, ast.Assign) and isinstance(st.targets[0], ast.Name)]
+    if sorted(members) != ["NEAREST", "NONE", "TRANSPOSE"]:
+        raise AnalysisError(f"resampling_mode members: {members}")
+    it = Interp(repo, aa)
+    for mem in members:
+        em = EnumMember(regm, cls, mem, None)
+        ps = [p for p in it.run("to_upscale", lambda em=em: ([em], {})) if p.kind == "return"]
+        if not ps:
+            raise AnalysisError("to_upscale: no returning path")
+        want = 1 if mem == "NONE" else 2
+        vals = sorted({p.value for p in ps if isinstance(p.value, int)})
+        rep.check(vals == [want], "C06-x", "ethosu/vela/architecture_allocator.py:to_upscale", f"to_upscale({mem}) = {want}",
+                  f"returns {vals}: the IFM partition of a {mem} operation is sized for the wrong IFM block (IB_END does not match the layout, fitting block configurations are rejected)")
+    um = repo.mod("register_command_stream_util")
+    iu = Interp(repo, um, stubs={"quantise_float32"})
+    site = "ethosu/vela/register_command_stream_util.py:quantise"
+    n = 0
+    for scale in (None, 0.5):
+        q = AObj("quant", {"scale_f32": scale, "zero_point": 7}, cls="NpuQuantization")
+        for p in iu.run("quantise", lambda q=q: ([3.0, q], {})):
+            if p.kind != "return":
+                continue
+            calls = [c for c in p.calls if c[0].split(".")[-1] == "quantise_float32"]
+            if len(calls) != 1:
+                raise AnalysisError("quantise: quantise_float32 call not recorded")
+            args = calls[0][1]
+            n += 1
+            rep.check(len(args) >= 3 and args[2] == 7 and args[1] == (1 if scale is None else scale), "C06-y", site, f"scale_f32 = {scale}: quantise_float32(value, {1 if scale is None else scale}, zero point 7)",
+                      f"called with {args[1:]!r}: a quantisation without a scale loses its zero point - ACTIVATION_MIN / MAX and IFM2_SCALAR are encoded without it")
+    if n < 2:
+        raise AnalysisError("quantise: paths not evaluated")
